@@ -62,6 +62,18 @@ var (
 )
 
 func newWorld(p *policy) *world.World {
+	w := newWorld0(p)
+	// the client may have NO registered audience: the policy is still the one that decides
+	clientAud = []string{"https://api.example/v1"}
+	if zz.Choice("registered-audience", 2) == 1 {
+		w.Store.Clients["c1"].(*fosite.DefaultClient).Audience = nil
+		clientAud = nil
+		zz.Cover("client-without-registered-audience", true)
+	}
+	return w
+}
+
+func newWorld0(p *policy) *world.World {
 	signer := world.NewModelSigner()
 	return world.New(world.Options{
 		Extra: []compose.Factory{compose.OpenIDConnectExplicitFactory, compose.OpenIDConnectImplicitFactory, compose.OpenIDConnectHybridFactory},
